@@ -362,9 +362,12 @@ class Resolver:
         helper's return expression with the arguments substituted (phi over several returns)."""
         from .anchors import KNOWN_FUNCTIONS
 
-        if callee.name in KNOWN_FUNCTIONS or callee.name.startswith("__") or depth > 6 or kws:
+        if callee.name in KNOWN_FUNCTIONS or callee.name.startswith("__") or kws:
             return None
-        if callee.qual == self.fn.qual or ("inl", callee.qual) in visiting:
+        stack = getattr(self.m, "_inline_stack", None)
+        if stack is None:
+            stack = self.m._inline_stack = []
+        if callee.qual == self.fn.qual or callee.qual in stack or len(stack) > 3:
             return None
         params = list(callee.params)
         same_self = False
@@ -381,11 +384,19 @@ class Resolver:
             return None
         if any(isinstance(x, (ast.For, ast.While, ast.Yield, ast.YieldFrom)) for x in ast.walk(callee.node)):
             return None  # builds its result by iteration/mutation: the return expression alone does not describe it
-        cres = Resolver(self.m, callee, flow=True)
+        cache = getattr(self.m, "_inline_cache", None)
+        if cache is None:
+            cache = self.m._inline_cache = {}
+        if callee.qual not in cache:
+            stack.append(callee.qual)
+            try:
+                cres = Resolver(self.m, callee, flow=True)
+                cache[callee.qual] = [cres.term(r.value) if r.value is not None else ("const", None) for r in rets]
+            finally:
+                stack.pop()
         binding = {("param", callee.params.index(p), p): a for p, a in zip(params, args)}
         alts = []
-        for r in rets:
-            t = cres.term(r.value) if r.value is not None else ("const", None)
+        for t in cache[callee.qual]:
             t = _subst(t, binding)
             for a in alternatives(t):
                 if a not in alts:
